@@ -97,7 +97,7 @@ CLAIMED = {
         "DESIGN.md §4 C15",
     ),
     "C16": (
-        "Exhaustive matrix enumeration with random payloads: a hand-written table classifies every ExecuteMsg variant of 14 contracts (verified at start-up against the variant names derived from the message schemas, so a new variant cannot be silently missing); every privileged or internal variant x twelve caller roles (configured owner, hub owner account, prospective new owner, user, sibling contract, the contract itself, pool factory, vault factory, fee distributor, a registered vault, the fee collector's configured take-rate recipient, the creator of an incentive flow) x {before, after an ownership transfer} is executed against a freshly built full hub as the regression corpus (760 combinations), and random payload details are drawn on top. Unauthorised caller => rejected and full world snapshot (all storage + all balances) unchanged; authorised caller with the canonical payload => accepted; after a transfer the previous owner loses and the new owner gains the rights. A second search runs flash loans whose borrower contract forges the vault's internal Callback(AfterTrade) from inside its own (possibly nested) loan with generated arguments; the borrower's reply handler reports the vault's verdict, which must be 'rejected'. Payloads are caller-aware (NextLoan source_vault in {vault, caller, other} x asset in {registered, unregistered}). Unauthorised attempts also carry reshaped payloads (optional fields left out down to the empty update, owner naming the caller).",
+        "Exhaustive matrix enumeration with random payloads: a hand-written table classifies every ExecuteMsg variant of 14 contracts (verified at start-up against the variant names derived from the message schemas, so a new variant cannot be silently missing); every privileged or internal variant x seventeen caller roles (configured owner, hub owner account, prospective new owner, user, sibling contract, the contract itself, pool factory, vault factory, fee distributor, a registered vault, the fee collector's configured take-rate recipient, the creator of an incentive flow, the bonding contract, the pool router, the vault router, the incentive factory, an incentive contract) x {before, after an ownership transfer} is executed against a freshly built full hub as the regression corpus (760 combinations), and random payload details are drawn on top. Unauthorised caller => rejected and full world snapshot (all storage + all balances) unchanged; authorised caller with the canonical payload => accepted; after a transfer the previous owner loses and the new owner gains the rights. A second search runs flash loans whose borrower contract forges the vault's internal Callback(AfterTrade) from inside its own (possibly nested) loan with generated arguments; the borrower's reply handler reports the vault's verdict, which must be 'rejected'. Payloads are caller-aware (NextLoan source_vault in {vault, caller, other} x asset in {registered, unregistered}). Unauthorised attempts also carry reshaped payloads (optional fields left out down to the empty update, owner naming the caller).",
         "cw20 token and the test-only distributor mock are outside the table. Router route management is judged with a wasm admin configured. AssertMinimumReceive is judged for effect-freeness. Migrations: only rejection of unauthorised callers.",
         "fault/role enumeration (exhaustive matrix) + property-based payloads, snapshot-diff oracle",
         "DESIGN.md §4 C16",
